@@ -54,10 +54,30 @@ pub struct Scenario {
     /// a second workspace folder `fb/` (its accepted one-module program is part of `files`)
     #[serde(default)]
     pub folder_b: bool,
+    /// "" or "src/": where the program's modules live relative to the configuration
+    #[serde(default)]
+    pub src_prefix: String,
+    /// the effective target, relative to the configuration ("" = out.yaml / override.yaml);
+    /// "missing/api.yaml" names a directory that does not exist
+    #[serde(default)]
+    pub target_rel: String,
+    /// -1: -q, 0: default, 1: -v, 2: -vv
+    #[serde(default)]
+    pub verbosity: i8,
+}
+
+fn main_path(scn: &Scenario) -> String {
+    format!("{}main.oal", scn.src_prefix)
+}
+
+fn target_dir_missing(scn: &Scenario) -> bool {
+    scn.target_rel.starts_with("missing/")
 }
 
 #[derive(Clone, Debug, Default)]
 pub struct Outcome {
+    /// the configuration file's own target exists although an option overrides it
+    pub ignored_target_written: bool,
     pub exit: Option<i32>,
     pub stderr: String,
     pub target: Option<Vec<u8>>,
@@ -79,18 +99,27 @@ pub fn cfg() -> Option<Cfg> {
     Some(Cfg { cli, shim })
 }
 
-fn target_name(scn: &Scenario) -> &'static str {
+fn target_name(scn: &Scenario) -> String {
+    if !scn.target_rel.is_empty() {
+        return scn.target_rel.clone();
+    }
     match scn.config_mode {
-        2 => "override.yaml",
-        _ => "out.yaml",
+        2 => "override.yaml".into(),
+        _ => "out.yaml".into(),
     }
 }
 
-pub fn execute(c: &Cfg, world: &World, scn: &Scenario) -> Outcome {
-    let mut config = CONFIG.to_string();
+fn config_text(scn: &Scenario) -> String {
+    let file_target = if scn.config_mode == 2 { "ignored.yaml".to_string() } else { target_name(scn) };
+    let mut config = format!("[api]\nmain = \"{}\"\ntarget = \"{file_target}\"\n", main_path(scn));
     if scn.with_base {
         config.push_str("base = \"base.yaml\"\n");
     }
+    config
+}
+
+pub fn execute(c: &Cfg, world: &World, scn: &Scenario) -> Outcome {
+    let config = config_text(scn);
     world.reset(&config, &scn.files);
     let root = world.root.canonicalize().expect("root");
     let rootp = format!("{}/", root.display());
@@ -99,7 +128,12 @@ pub fn execute(c: &Cfg, world: &World, scn: &Scenario) -> Outcome {
         std::fs::write(root.join("base.yaml"), b).expect("scratch");
     }
     let tname = target_name(scn);
-    let mut tpath = root.join(tname);
+    let mut tpath = root.join(&tname);
+    if let Some(parent) = tpath.parent() {
+        if !target_dir_missing(scn) {
+            std::fs::create_dir_all(parent).expect("scratch");
+        }
+    }
     match &scn.fault {
         Fault::TargetIsDir => {
             std::fs::create_dir_all(&tpath).expect("scratch");
@@ -118,7 +152,7 @@ pub fn execute(c: &Cfg, world: &World, scn: &Scenario) -> Outcome {
         }
         _ => {}
     }
-    if scn.prefilled && scn.fault != Fault::TargetIsDir {
+    if scn.prefilled && scn.fault != Fault::TargetIsDir && !target_dir_missing(scn) {
         std::fs::write(&tpath, SENTINEL).expect("scratch");
     }
     let trace_path = root.parent().unwrap().join("trace.txt");
@@ -132,7 +166,7 @@ pub fn execute(c: &Cfg, world: &World, scn: &Scenario) -> Outcome {
     }
     match scn.config_mode {
         0 => {
-            cmd.args(["-m", "main.oal", "-t", &target_arg]);
+            cmd.args(["-m", &main_path(scn), "-t", &target_arg]);
             if scn.with_base {
                 cmd.args(["-b", "base.yaml"]);
             }
@@ -146,6 +180,18 @@ pub fn execute(c: &Cfg, world: &World, scn: &Scenario) -> Outcome {
         _ => {
             cmd.arg("-c").arg(root.join("oal.toml")).args(["-t", &target_arg]);
         }
+    }
+    match scn.verbosity {
+        -1 => {
+            cmd.arg("-q");
+        }
+        1 => {
+            cmd.arg("-v");
+        }
+        2 => {
+            cmd.arg("-vv");
+        }
+        _ => {}
     }
     cmd.env("LD_PRELOAD", &c.shim)
         .env("VERIF_HASH_SEED", scn.hash_seed.to_string())
@@ -179,6 +225,7 @@ pub fn execute(c: &Cfg, world: &World, scn: &Scenario) -> Outcome {
     let target = if target_is_file { std::fs::read(&tpath).ok() } else { None };
     let trace = std::fs::read_to_string(&trace_path).unwrap_or_default().lines().map(|l| l.to_string()).collect();
     Outcome {
+        ignored_target_written: scn.config_mode == 2 && root.join("ignored.yaml").exists(),
         exit: out.status.code(),
         stderr: String::from_utf8_lossy(&out.stderr).replace(&rootp, "$WS/"),
         target,
@@ -203,6 +250,7 @@ fn v(oracle: &str, detail: String) -> Option<Violation> {
 /// Trace ordering: the target is opened for writing at most once and after the last read of any source or base.
 fn trace_order(scn: &Scenario, o: &Outcome) -> Option<Violation> {
     let t = target_name(scn);
+    let t = t.as_str();
     let wopens: Vec<usize> = o.trace.iter().enumerate().filter(|(_, l)| l.starts_with(&format!("open {t} flags=w"))).map(|(i, _)| i).collect();
     if wopens.len() > 1 {
         return v("target-opened-twice", format!("{:?}", o.trace));
@@ -219,7 +267,7 @@ fn trace_order(scn: &Scenario, o: &Outcome) -> Option<Violation> {
 }
 
 fn target_untouched(scn: &Scenario, o: &Outcome) -> bool {
-    if scn.prefilled {
+    if scn.prefilled && !target_dir_missing(scn) {
         o.target.as_deref() == Some(SENTINEL.as_bytes())
     } else {
         o.target.is_none() && !o.target_is_file
@@ -236,7 +284,7 @@ fn complete_document(bytes: &[u8]) -> bool {
 
 /// The reference verdict: does the same pipeline, in process, accept these sources?
 pub fn reference(scn: &Scenario) -> Result<String, (Phase, String)> {
-    compile_to_yaml("file:///w/", &scn.files, "main.oal").map_err(|f| (f.phase, f.message))
+    compile_to_yaml("file:///w/", &scn.files, &main_path(scn)).map_err(|f| (f.phase, f.message))
 }
 
 /// Fault-free oracle (a).
@@ -246,6 +294,17 @@ pub fn check_fault_free(scn: &Scenario, o: &Outcome) -> Option<Violation> {
     }
     let r = reference(scn);
     let t = target_name(scn);
+    let t = t.as_str();
+    if o.ignored_target_written {
+        return v("config-file-target-written-despite-override", "ignored.yaml exists after the run".into());
+    }
+    if target_dir_missing(scn) {
+        // the target's directory does not exist: accepted sources must fail too, nothing may appear
+        if o.exit == Some(0) {
+            return v("success-without-target", format!("exit 0 although the target directory does not exist; sources {}", if r.is_ok() { "accepted" } else { "rejected" }));
+        }
+        return trace_order(scn, o);
+    }
     match (&r, o.exit) {
         (Ok(_), Some(0)) => {
             let Some(bytes) = &o.target else {
@@ -284,7 +343,7 @@ pub fn check_fault_free(scn: &Scenario, o: &Outcome) -> Option<Violation> {
             if o.trace.iter().any(|l| l.starts_with(&format!("open {t} flags=w"))) {
                 return v("target-opened-on-source-error", format!("sources fail at {phase:?}; trace {:?}", o.trace));
             }
-            if o.stderr.trim().is_empty() {
+            if scn.verbosity >= 0 && o.stderr.trim().is_empty() {
                 return v("no-diagnostic-printed", format!("sources fail at {phase:?} ({msg}) with empty stderr"));
             }
             if matches!(phase, Phase::Syntax | Phase::Compile | Phase::Eval) && !scn.files.keys().any(|p| o.stderr.contains(&format!("$WS/{p}"))) {
@@ -358,10 +417,11 @@ pub fn check_faulted(scn: &Scenario, o0: &Outcome, o: &Outcome) -> Option<Violat
 
 /// wasm agreement (single module, no base): both fail or produce the same document.
 pub fn check_wasm(scn: &Scenario, o0: &Outcome) -> Option<Violation> {
-    if scn.files.len() != 1 || scn.with_base {
+    // only when a CLI failure can only come from the sources
+    if scn.files.len() != 1 || scn.with_base || target_dir_missing(scn) {
         return None;
     }
-    let text = scn.files.get("main.oal")?.clone();
+    let text = scn.files.get(&main_path(scn))?.clone();
     let r = std::panic::catch_unwind(|| oal_wasm::compile(&text));
     // oal-wasm installs a panic hook on first use; keep the simulator quiet
     std::panic::set_hook(Box::new(|_| {}));
@@ -388,6 +448,9 @@ pub fn check_wasm(scn: &Scenario, o0: &Outcome) -> Option<Violation> {
 /// LSP agreement: after a small history without text changes on the same directory the
 /// server has at least one outstanding diagnostic exactly when the CLI fails.
 pub fn check_lsp(world: &World, scn: &Scenario, o0: &Outcome) -> (Option<Violation>, usize) {
+    if target_dir_missing(scn) {
+        return (None, 0); // the CLI fails for a reason the server cannot know about
+    }
     let mut client = ClientModel {
         disk: scn.files.clone(),
         open: BTreeMap::new(),
@@ -474,6 +537,7 @@ pub fn run_scenario(c: &Cfg, world: &World, scn: &Scenario) -> Checked {
 
 fn gen_fault(scn: &Scenario, o0: &Outcome, rng: &mut Rng) -> Fault {
     let t = target_name(scn);
+    let t = t.as_str();
     // calls of the fault-free trace: (op, path)
     let calls: Vec<(String, String)> = o0
         .trace
@@ -567,11 +631,11 @@ fn gen_fault(scn: &Scenario, o0: &Outcome, rng: &mut Rng) -> Fault {
             }
         }
         10 => {
-            let others: Vec<&String> = sources.iter().filter(|p| *p != "main.oal").collect();
+            let others: Vec<&String> = sources.iter().filter(|p| **p != main_path(scn)).collect();
             if let Some(p) = others.first() {
                 Fault::SourceIsDir((*p).clone())
             } else {
-                Fault::NonUtf8("main.oal".into())
+                Fault::NonUtf8(main_path(scn))
             }
         }
         _ => {
@@ -649,6 +713,24 @@ pub fn run(seed: u64, run: u64) -> Report {
     } else {
         probes.push("accepted_sources".into());
     }
+    // where the modules live relative to the configuration
+    let src_prefix = if wl.chance(1, 3) { "src/".to_string() } else { String::new() };
+    if !src_prefix.is_empty() {
+        files = files.into_iter().map(|(p, t)| (format!("{src_prefix}{p}"), t)).collect();
+        probes.push("sources_in_subdirectory".into());
+    }
+    let target_rel = match wl.below(10) {
+        0..=4 => String::new(),
+        5..=7 => "out/api.yaml".to_string(),
+        _ => "missing/api.yaml".to_string(),
+    };
+    if target_rel.starts_with("missing/") {
+        probes.push("target_directory_missing".into());
+    }
+    let verbosity: i8 = *wl.pick(&[0, 0, 0, -1, 1, 2]);
+    if verbosity < 0 {
+        probes.push("quiet".into());
+    }
     if sr.chance(1, 2) {
         // a document of the directory that is not part of the program
         files.insert("scratch.oal".into(), "let unrelated = num;\n".into());
@@ -678,6 +760,9 @@ pub fn run(seed: u64, run: u64) -> Report {
         fault: Fault::None,
         lsp,
         folder_b,
+        src_prefix,
+        target_rel,
+        verbosity,
     };
     probes.push(["config_options", "config_file", "options_override_file"][scn.config_mode as usize].to_string());
     if scn.with_base {
